@@ -252,4 +252,158 @@ theorem toFinset_foldl_setUnion {α : Type} (l : List α) (g : α → List Nat) 
     (l.foldl (fun s x => Py.setUnion s (g x)) []).toFinset = (l.flatMap g).toFinset := by
   ext y; simp only [List.mem_toFinset, mem_foldl_setUnion, List.not_mem_nil, false_or, List.mem_flatMap]
 
+/-! ### Normal forms for refactoring-robust bridges (namespace `Bridge.Robust`; used by the layout / rules / namespace bridges)
+
+  The bridge lemmas unfold a generated definition and normalise it with `py_simp [facts]`: `simp` with the lemmas below, side
+  conditions (`0 < d`, `b ≤ a`, …) discharged by `omega` over the hypotheses.  Local helper functions, hoisted temporaries and
+  early returns are β / ζ / `if`-reductions; comprehensions and loops without a raising step both become `List.foldl`
+  (`maxOf_cons`, `forEach_pure`, `List.foldl_map`); `max` / `min` / `+` are put into one order (`max_comm'` …). -/
+
+namespace Robust
+
+theorem throw_err {α : Type} (e : Py.Err) : (throw e : Py.M α) = Except.error e := rfl
+theorem err_bind {α β : Type} (e : Py.Err) (f : α → Py.M β) : (Except.error e >>= f) = Except.error e := rfl
+theorem bind_pure_unit (x : Py.M Unit) : (x >>= fun _ => Except.ok ()) = x := by
+  cases x with
+  | ok u => cases u; rfl
+  | error e => rfl
+
+theorem assert_decide {p : Prop} [Decidable p] (h : p) : Py.assert (decide p) = .ok () := by
+  simp [Py.assert, h]
+theorem assert_false' : Py.assert false = .error .assertion := rfl
+theorem assert_eq_true {b : Bool} (h : b = true) : Py.assert b = .ok () := by subst h; rfl
+
+theorem blsPad_pos (a : Bls.Op) {n : Nat} (hn : 1 ≤ n) : Py.blsPad a n = .ok (.pad a n) := by
+  unfold Py.blsPad; rw [if_neg (by omega)]; rfl
+theorem isAligned_pos (a : Bls.Op) {d : Nat} (hd : 1 ≤ d) : Py.blsIsAlignedAt a d = .ok (Bls.isAlignedAt a d) := by
+  unfold Py.blsIsAlignedAt; rw [if_neg (by omega)]; rfl
+theorem blsUnite_cons (a : Bls.Op) (l : List Bls.Op) : Py.blsUnite (a :: l) = .ok (.uni (a :: l)) := rfl
+theorem index_cons_zero {α : Type} (a : α) (l : List α) : Py.index (a :: l) 0 = .ok a := rfl
+theorem maxOf_cons (a : Nat) (l : List Nat) : Py.maxOf (a :: l) = .ok (l.foldl max a) := rfl
+theorem minOf_cons (a : Nat) (l : List Nat) : Py.minOf (a :: l) = .ok (l.foldl min a) := rfl
+theorem ceilLog2_pos {x : Nat} (hx : 1 ≤ x) : Py.ceilLog2 x = .ok (Py.ceilLog2Aux x x 0 1) := by
+  unfold Py.ceilLog2; rw [if_neg (by omega)]; rfl
+
+theorem forEach_nil {α σ : Type} (s : σ) (body : σ → α → Py.M σ) : Py.forEach [] s body = .ok s := rfl
+theorem forEach_cons {α σ : Type} (a : α) (l : List α) (s : σ) (body : σ → α → Py.M σ) :
+    Py.forEach (a :: l) s body = (body s a >>= fun s' => Py.forEach l s' body) := by
+  unfold Py.forEach; rw [List.foldlM_cons]
+theorem forEach_pure {α σ : Type} (l : List α) (s : σ) (f : σ → α → σ) :
+    Py.forEach l s (fun s x => Except.ok (f s x)) = .ok (l.foldl f s) := forEach_ok l s _ f (fun _ _ _ => rfl)
+theorem forEach_map {α β σ : Type} (l : List α) (g : α → β) (s : σ) (body : σ → β → Py.M σ) :
+    Py.forEach (l.map g) s body = Py.forEach l s (fun s x => body s (g x)) := by
+  unfold Py.forEach; rw [List.foldlM_map]
+
+theorem max_comm' (a b : Nat) : max a b = max b a := Nat.max_comm a b
+theorem max_left_comm' (a b c : Nat) : max a (max b c) = max b (max a c) := by omega
+theorem max_assoc' (a b c : Nat) : max (max a b) c = max a (max b c) := by omega
+theorem min_comm' (a b : Nat) : min a b = min b a := Nat.min_comm a b
+theorem min_left_comm' (a b c : Nat) : min a (min b c) = min b (min a c) := by omega
+theorem min_assoc' (a b c : Nat) : min (min a b) c = min a (min b c) := by omega
+
+/-- `xs.foldl` of a function that is `max` in either operand order -/
+theorem foldl_max_swap {α : Type} (l : List α) (g : α → Nat) (a : Nat) :
+    l.foldl (fun r x => max (g x) r) a = l.foldl (fun r x => max r (g x)) a := by
+  congr 1; funext r x; exact Nat.max_comm _ _
+
+/-! #### Programs that only check: which exception, and whether -/
+
+/-- the computation raises -/
+def raises {α : Type} : Py.M α → Bool
+  | .ok _ => false
+  | .error _ => true
+/-- the only exception the computation can raise is `e` -/
+def onlyThrows {α : Type} (e : Py.Err) (m : Py.M α) : Prop := ∀ e', m = .error e' → e' = e
+
+theorem eq_of_onlyThrows {e : Py.Err} {m : Py.M Unit} (h : onlyThrows e m) : m = if raises m then .error e else .ok () := by
+  cases m with
+  | ok u => cases u; rfl
+  | error e' => rw [h e' rfl]; rfl
+
+@[simp] theorem raises_ok {α : Type} (a : α) : raises (Except.ok a : Py.M α) = false := rfl
+@[simp] theorem raises_pure {α : Type} (a : α) : raises (pure a : Py.M α) = false := rfl
+@[simp] theorem raises_error {α : Type} (e : Py.Err) : raises (Except.error e : Py.M α) = true := rfl
+@[simp] theorem raises_throw {α : Type} (e : Py.Err) : raises (throw e : Py.M α) = true := rfl
+@[simp] theorem raises_ite {α : Type} (c : Prop) [Decidable c] (x y : Py.M α) :
+    raises (if c then x else y) = if c then raises x else raises y := by split <;> rfl
+@[simp] theorem raises_bind_unit {β : Type} (x : Py.M Unit) (f : Unit → Py.M β) :
+    raises (x >>= f) = (raises x || raises (f ())) := by
+  cases x with
+  | ok u => cases u; rfl
+  | error e => rfl
+@[simp] theorem raises_forEach_unit {α : Type} (l : List α) (body : Unit → α → Py.M Unit) :
+    raises (Py.forEach l () body) = l.any (fun x => raises (body () x)) := by
+  induction l with
+  | nil => rfl
+  | cons a l ih =>
+    rw [forEach_cons, List.any_cons]
+    cases h : body () a with
+    | ok u => cases u; simpa [raises] using ih
+    | error e => rfl
+
+@[simp] theorem onlyThrows_ok {α : Type} (e : Py.Err) (a : α) : onlyThrows e (Except.ok a : Py.M α) := by
+  intro e' h; cases h
+@[simp] theorem onlyThrows_pure {α : Type} (e : Py.Err) (a : α) : onlyThrows e (pure a : Py.M α) := by
+  intro e' h; cases h
+@[simp] theorem onlyThrows_error {α : Type} (e : Py.Err) : onlyThrows e (Except.error e : Py.M α) := by
+  intro e' h; cases h; rfl
+@[simp] theorem onlyThrows_throw {α : Type} (e : Py.Err) : onlyThrows e (throw e : Py.M α) := onlyThrows_error e
+theorem onlyThrows_ite {α : Type} (e : Py.Err) (c : Prop) [Decidable c] (x y : Py.M α) (hx : onlyThrows e x) (hy : onlyThrows e y) :
+    onlyThrows e (if c then x else y) := by split <;> assumption
+theorem onlyThrows_bind {α β : Type} (e : Py.Err) (x : Py.M α) (f : α → Py.M β) (hx : onlyThrows e x) (hf : ∀ a, onlyThrows e (f a)) :
+    onlyThrows e (x >>= f) := by
+  cases x with
+  | ok a => exact hf a
+  | error e' => intro e'' h; exact hx e'' (by simpa [err_bind] using h)
+theorem onlyThrows_forEach {α σ : Type} (e : Py.Err) (l : List α) (s : σ) (body : σ → α → Py.M σ)
+    (h : ∀ s x, onlyThrows e (body s x)) : onlyThrows e (Py.forEach l s body) := by
+  induction l generalizing s with
+  | nil => intro e' h'; cases h'
+  | cons a l ih => rw [forEach_cons]; exact onlyThrows_bind e _ _ (h s a) (fun s' => ih s')
+
+/-- structural proof that a checking program raises nothing but `e` -/
+macro "only_throws" : tactic =>
+  `(tactic| repeat (first
+      | exact onlyThrows_ok _ _ | exact onlyThrows_pure _ _ | exact onlyThrows_error _ | exact onlyThrows_throw _
+      | (apply onlyThrows_ite) | (apply onlyThrows_forEach; intro _ _) | (apply onlyThrows_bind; on_goal 2 => intro _)
+      | (intro _)))
+
+theorem ok_iff_not_raises (m : Py.M Unit) : m = .ok () ↔ raises m = false := by
+  cases m with
+  | ok u => cases u; simp [raises]
+  | error e => simp [raises]
+
+theorem and_any {α : Type} (b : Bool) (l : List α) (f : α → Bool) : (b && l.any f) = l.any (fun x => b && f x) := by
+  induction l with
+  | nil => simp
+  | cons a l ih => simp only [List.any_cons, Bool.and_or_distrib_left, ih]
+theorem any_any_congr {α : Type} (l : List α) (f g : α → α → Bool) (h : ∀ a b, f a b = g a b) :
+    l.any (fun a => l.any (f a)) = l.any (fun a => l.any (g a)) := by
+  congr 1; funext a; congr 1; funext b; exact h a b
+
+/-- side conditions of the PyLib lemmas -/
+macro "py_disch" : tactic =>
+  `(tactic| first
+    | assumption
+    | omega
+    | (simp only [Bool.or_eq_true, Bool.and_eq_true, Bool.not_eq_true', beq_iff_eq, bne_iff_ne, ne_eq, decide_eq_true_eq,
+        decide_eq_false_iff_not]; omega))
+
+/-- normal form of generated code: see the section comment -/
+macro "py_simp" "[" ts:Lean.Parser.Tactic.simpLemma,* "]" : tactic =>
+  `(tactic| simp (disch := py_disch) only [ok_bind, pure_eq_ok, throw_err, err_bind, bind_pure_unit, bind_pure, assert_true, assert_decide, assert_eq_true,
+      sub_le, mod_pos, floordiv_pos, blsPad_pos, isAligned_pos, blsUnite_cons, index_cons_zero, maxOf_cons, minOf_cons, ceilLog2_pos,
+      forEach_nil, forEach_pure, forEach_map, Py.blsAdd, Py.blsOfInt, Py.blsRepeat, Py.blsRepeatRange, Py.range,
+      List.singleton_append, List.cons_append, List.nil_append, List.foldl_map, List.map_map, List.map_id', List.map_cons, List.map_nil,
+      List.length_cons, List.length_nil, List.length_map, List.drop_succ_cons, List.drop_zero, List.foldl_cons, List.foldl_nil,
+      Function.comp_def, Nat.one_shiftLeft, foldl_max_swap,
+      Nat.zero_lt_succ, Nat.succ_ne_zero, Nat.add_one_ne_zero, Nat.lt_add_one_iff, Nat.le_add_left, Nat.zero_le,
+      beq_iff_eq, bne_iff_ne, ne_eq, beq_self_eq_true, bne_self_eq_false, decide_true, decide_false, decide_eq_true_eq, ↓decide_eq_true_eq, decide_not,
+      Bool.and_true, Bool.true_and, Bool.and_false, Bool.false_and, Bool.or_true, Bool.true_or, Bool.or_false, Bool.false_or,
+      Bool.not_true, Bool.not_false, Bool.false_eq_true, Bool.and_eq_true, Bool.or_eq_true, Bool.not_eq_true',
+      if_true, if_false, ite_true, ite_false, reduceIte, if_pos, if_neg, List.drop_nil, Except.ok.injEq, not_true_eq_false, not_false_eq_true, eq_self_iff_true,
+      $ts,*])
+
+end Robust
+
 end Bridge
